@@ -9,7 +9,14 @@
    (ENOSPC / EACCES / EIO); the class (before / after) of the surviving tree must equal the model's prediction
    for the same oracle
 3. monitor on every surviving tree: visible store exactly before or exactly after, success answer => after,
-   storage.verify() passes, a fresh server answers PROPFIND and PUT, nothing else changed."""
+   storage.verify() passes, a fresh server answers PROPFIND and PUT, nothing else changed
+4. read-side faults (not modelled, monitor only): every call site (stat / fstat / open for reading / read / getdents
+   on a path of the storage folder) of every request kind gets an errno of {EACCES, EIO, EMFILE, ENOSPC} once; the
+   catalogue also holds requests the fault-free server REFUSES (Overwrite: F, UID conflicts, If-Match /
+   If-None-Match, existing collection, unencodable text).  Rule: a request that met a fault is answered with an
+   error, or has exactly the fault-free effect (2xx => the tree is the fault-free after-state)
+5. faults on write() of large items (handed to the kernel by write(), not by flush()) and real short writes
+   (RLIMIT_FSIZE: the kernel writes a prefix, then EFBIG)."""
 import json
 import os
 
@@ -40,6 +47,8 @@ def select_points(ctx, un, pts):
     commit = [i for i, p in enumerate(pts) if data_step(un["steps"][p[0]][0])]
     for c in commit[:2]:
         ks |= {c - 1, c, c + 1}
+    # write() of the data itself (items, props): the first one always
+    ks |= set([i for i, p in enumerate(pts) if un["steps"][p[0]][0][0] == "Write" and un["steps"][p[0]][0][2] != 0][:1])
     while len(ks) < min(n, 9):
         ks.add(ctx.rng.randrange(n))
     return sorted(k for k in ks if 0 <= k < n)
@@ -71,7 +80,9 @@ def run(ctx):
     ctx.assumptions += [
         "kernel: a system call is atomic with respect to SIGKILL; rename / renameat2(RENAME_EXCHANGE) are atomic; flock dies with the process",
         "Linux with renameat2 (the three-rename fall-back of rename_exchange is proved NOT atomic: C02_exchange_fallback_refuted)",
-        "faults are injected into mutating calls (mkdir, open(O_CREAT), write, fsync, rename*, unlink*, rmdir); read-only calls are not modelled",
+        "faults on mutating calls (mkdir, open(O_CREAT), write, fsync, rename*, unlink*, rmdir) are modelled and compared with the model's prediction; "
+        "faults on read-side calls (stat, open for reading, read, getdents) are injected into the real server and judged by the monitor only "
+        "(the model's Read / Ls do not fail)",
         "the handlers call the storage operations with existing collections and safe hrefs; for create_collection the parent exists",
         "quick tier: sampled boundaries (first, last, around the commit step, random); thorough tier: every boundary, every system call of a step",
     ]
@@ -86,19 +97,62 @@ def run(ctx):
 
 def _run(ctx, base):
     ops = [o for o in B.op_requests() if o not in B.SKIP]
+    guards = list(B.guard_requests())
     if ctx.quick:
-        cases = [("warm", (False, False), o) for o in ops]
+        cases = [("warm", (False, False), o) for o in ops + guards]
         cases += [("residue", (False, False), o) for o in ("put_over_stale", "putcoll_replace", "delete_coll", "move_over_same", "delete_item")]
-        cases += [("cold", (True, True), o) for o in ("put_new", "putcoll_new", "move_over_cross", "home_predef", "mkcalendar")]
+        cases += [("cold", (True, True), o) for o in ("put_new", "putcoll_new", "move_over_cross", "home_predef", "mkcalendar",
+                                                      "g_put_otheruid", "g_move_noover_same")]
     else:
         cases = [(sh, lay, o) for sh in C.SHAPES for lay in B.LAYOUTS for o in ops]
+        cases += [("warm", (False, False), o) for o in guards] + [("cold", (True, True), o) for o in guards]
     ctx.log("baseline: %d traced requests" % len(cases))
     with C.pool() as p:
         recs = C.baseline(ctx, base, cases, p)
-        bad_corr = [((o, sh, tuple(lay)), rec["problems"]) for (sh, lay, o), rec in zip(cases, recs) if rec["problems"]]
+        bad_corr = [((o, sh, tuple(lay)), rec["problems"]) for (sh, lay, o), rec in zip(cases, recs)
+                    if rec["problems"] and not rec["un"].get("guard")]
+        for (sh, lay, o), rec in zip(cases, recs):
+            if rec["problems"] and rec["un"].get("guard"):
+                un = rec["un"]
+                d = sorted(k for k in set(un["pre_abs"]) | set(un["post_abs"]) if un["pre_abs"].get(k, 0) != un["post_abs"].get(k, 0))
+                ctx.violation("C02: %s on store '%s' (layout %s), no fault: the request is refused with %s but the visible store changed at %s" % (
+                    o, sh, tuple(lay), un["status"], d[:4]),
+                    dict(request=B.http_of(B.all_ops()[o]), shape=sh, layout=list(lay), inject=None, status=un["status"],
+                         problems=rec["problems"], note="replay: ./check C02 --replay <this file>"),
+                    signature="C02:%s:fault-free" % o)
         ctx.obligation("correspondence:trace-vs-model", not bad_corr,
                        "" if not bad_corr else "; ".join("%s: %s" % (k, pr[0]) for k, pr in bad_corr[:6]))
         jobs, mjobs, meta = [], [], []
+        seen_sites, rd_errors = set(), []
+        def unmodelled_jobs(sh, lay, o, un, allowed):
+            # read-side calls: not modelled; the monitor, the error-or-exact-effect rule and the same-process follow-ups
+            if ctx.quick or (sh, tuple(lay)) == ("warm", (False, False)):
+                if un.get("rsites_error"):
+                    rd_errors.append("%s: %s" % (o, un["rsites_error"]))
+                for site, err, occ in B.read_points(un, ctx.quick, seen_sites, B.all_ops()[o]):
+                    tag = "%s-%d%d-%s-r%d-%s" % (sh, lay[0], lay[1], o, len(jobs), err)
+                    frag = site["rel"].split("/" + X.TMP_PREFIX)[0].split(X.TMP_PREFIX)[0]
+                    jobs.append(dict(base=base, shape=sh, lay=lay, opname=o, tag=tag, inject=("fault", err, site["name"], site["ordinal"]),
+                                     pre_abs=un["pre_abs"], post_abs=un["post_abs"], list_before=un["list_before"],
+                                     list_after=un["list_after"], allowed=allowed, names=un["names"], contents=un["contents"],
+                                     rd=True, expect_frag=frag, base_status=un["status"]))
+                    mjobs.append(None)
+                    meta.append(dict(case=(o, sh, tuple(lay)), k=-3, label="%s of %s (call %s of the request on that path)" % (
+                        site["variant"], site["key"][1], occ), mode="fault", err=err, un=un,
+                                     variant="%s-%s" % (site["variant"], "props" if site["rel"].endswith(".Radicale.props") else
+                                                        B.site_class(site["key"]).replace("file", "item"))))
+            # real short writes of large items
+            if o in ("put_big_new", "put_big_over"):
+                for limit in ([4096] if ctx.quick else [1, 4096, 16384]):
+                    tag = "%s-%d%d-%s-short%d" % (sh, lay[0], lay[1], o, limit)
+                    jobs.append(dict(base=base, shape=sh, lay=lay, opname=o, tag=tag, inject=("short", None, "write", limit),
+                                     pre_abs=un["pre_abs"], post_abs=un["post_abs"], list_before=un["list_before"],
+                                     list_after=un["list_after"], allowed=allowed, names=un["names"], contents=un["contents"],
+                                     base_status=un["status"]))
+                    mjobs.append(None)
+                    meta.append(dict(case=(o, sh, tuple(lay)), k=-5, label="write() beyond %d bytes (short write, then EFBIG)" % limit,
+                                     mode="short", err="EFBIG", un=un))
+
         for (sh, lay, o), rec in zip(cases, recs):
             un = rec["un"]
             if un.get("error"):
@@ -114,6 +168,7 @@ def _run(ctx, base):
                                          names=un["names"], contents=un["contents"]))
                         mjobs.append(None)
                         meta.append(dict(case=(o, sh, tuple(lay)), k=-2, label=label, mode=mode, err=err, un=un))
+                unmodelled_jobs(sh, lay, o, un, allowed_states(un, B.all_ops()[o]))
                 continue
             ctx.traces_validated += 1
             allowed = allowed_states(un, B.all_ops()[o])
@@ -135,23 +190,14 @@ def _run(ctx, base):
                     # TemporaryDirectory clean-up retries after a PermissionError: the real request goes on as if unfaulted
                     oracle = None if (mode == "fault" and err == "EACCES" and stkind == "Rmtree") else (
                         ("crash", k) if mode == "crash" else ("fail", k, err))
+                    if un.get("guard"):
+                        jobs[-1]["base_status"] = un["status"]
+                        mjobs.append(None)
+                        meta.append(dict(case=(o, sh, tuple(lay)), k=-4, label=label, mode=mode, err=err, un=un))
+                        continue
                     mjobs.append(dict(lay=lay, entries=un["pre_entries"], oracle=oracle, request=un["request"]))
                     meta.append(dict(case=(o, sh, tuple(lay)), k=k, label=label, mode=mode, err=err, un=un))
-            # read-side calls (open of an item / props file, scandir of a collection, open of a directory for fsync):
-            # not modelled; the monitor and the same-process follow-ups must still hold
-            rd = [r for r in un.get("reads", []) if not X.is_lock(r[2])]
-            if ctx.quick:
-                rd = ([r for r in rd if not r[3]][:1] + [r for r in rd if r[3]][-1:]) if o in (
-                    "delete_item", "put_over", "move_over_cross", "proppatch", "delete_coll", "putcoll_replace", "put_new") else []
-            for j, (name, ordinal, rel, isdir) in enumerate(rd):
-                for mode, err in [("fault", "EIO" if j % 2 == 0 else "EACCES")]:
-                    tag = "%s-%d%d-%s-r%d-%s" % (sh, lay[0], lay[1], o, j, err)
-                    jobs.append(dict(base=base, shape=sh, lay=lay, opname=o, tag=tag, inject=(mode, err, name, ordinal),
-                                     pre_abs=un["pre_abs"], post_abs=un["post_abs"], list_before=un["list_before"],
-                                     list_after=un["list_after"], allowed=allowed, names=un["names"], contents=un["contents"]))
-                    mjobs.append(None)
-                    meta.append(dict(case=(o, sh, tuple(lay)), k=-3, label="%s %s for reading" % ("scan / open of directory" if isdir else "open of", rel),
-                                     mode=mode, err=err, un=un))
+            unmodelled_jobs(sh, lay, o, un, allowed)
             # lock-file opens precede every change: the store must stay as before
             if not ctx.quick or o in ("put_new", "delete_coll"):
                 for (name, ordinal) in un["locks"][:1]:
@@ -183,14 +229,18 @@ def _run(ctx, base):
             continue
         if res["problems"]:
             viol += 1
-            ctx.violation("C02: %s on store '%s' (layout %s), %s at the boundary before [%s]: %s" % (
+            ctx.violation("C02: %s on store '%s' (layout %s), %s %s [%s]: %s" % (
                 mt["case"][0], mt["case"][1], mt["case"][2],
-                "process killed" if mt["mode"] == "crash" else "system call fails with %s" % mt["err"], mt["label"],
+                "process killed" if mt["mode"] == "crash" else ("file size limit reached" if mt["mode"] == "short" else
+                                                                 "system call fails with %s" % mt["err"]),
+                "at" if mt["k"] in (-3, -5) else "at the boundary before", mt["label"],
                 "; ".join(res["problems"])),
                 dict(request=B.http_of(B.all_ops()[mt["case"][0]]), shape=mt["case"][1], layout=list(mt["case"][2]),
                      inject=list(job["inject"]), boundary=mt["label"], status=res["status"], problems=res["problems"],
+                     rd=bool(job.get("rd")), fault_free_status=un["status"],
                      note="replay: ./check C02 --replay <this file>"),
-                signature="C02:%s:%s" % (mt["case"][0], "crash" if mt["mode"] == "crash" else mt["err"]))
+                signature=("C02:%s:read-%s" % (mt["case"][0], mt["variant"])) if mt["k"] == -3 else
+                          "C02:%s:%s" % (mt["case"][0], "crash" if mt["mode"] == "crash" else mt["err"]))
             continue
         if mj is None:
             if mt["k"] == -1 and res["cls"] not in ("before", "same"):
@@ -213,6 +263,7 @@ def _run(ctx, base):
     ctx.extra["injection_runs"] = len(jobs)
     ctx.extra["injection_missed"] = misses
     ctx.obligation("harness:injections-hit", misses <= max(2, len(jobs) // 50), "%d of %d injections did not hit the intended call" % (misses, len(jobs)))
+    ctx.obligation("harness:read-sites", not rd_errors, "; ".join(rd_errors[:4]))
     ctx.obligation("correspondence:injection-vs-model", not mism, "; ".join(mism[:5]))
     if mism:
         ctx.extra["injection_disagreements"] = mism[:20]
@@ -222,7 +273,7 @@ def replay(ctx, path):
     data = json.load(open(path))
     r = data.get("replay", {})
     print(json.dumps({k: v for k, v in r.items() if k != "request"}, indent=1)[:2000])
-    if not r.get("inject"):
+    if "request" not in r:
         return 0
     base = C.make_base()
     try:
@@ -230,10 +281,15 @@ def replay(ctx, path):
         if not op:
             return 0
         un = B.unfaulted(base, r["shape"], tuple(r["layout"]), op[0])
+        if not r.get("inject"):
+            changed = un["pre_abs"] != un["post_abs"]
+            print("fault-free run: status", un["status"], "visible store", "CHANGED" if changed else "unchanged")
+            return 1 if (changed and un["status"] not in B.SUCCESS) else 0
         res = B.inject_run(dict(base=base, shape=r["shape"], lay=tuple(r["layout"]), opname=op[0], tag="replay",
                                 inject=tuple(r["inject"]), pre_abs=un["pre_abs"], post_abs=un["post_abs"],
                                 list_before=un["list_before"], list_after=un["list_after"], names=un["names"],
-                                contents=un["contents"], allowed=allowed_states(un, B.all_ops()[op[0]])))
+                                contents=un["contents"], allowed=allowed_states(un, B.all_ops()[op[0]]),
+                                rd=r.get("rd", False), base_status=un["status"]))
         print("outcome:", res["cls"], "status:", res["status"], "hit:", res["hit"], "problems:", res["problems"])
         return 1 if res["problems"] else 0
     finally:
